@@ -64,8 +64,7 @@ class NumberType(Type):
             return np.isclose(float(left), float(right), rtol=Numeric.PRECISION)
         
     def __ne__(self, other):
-        left, right = self._prepare(other)
-        return BooleanType(left != right)
+        return BooleanType(not self.__eq__(other))
 
     def __lt__(self, other):
         left, right = self._prepare(other)
